@@ -101,6 +101,10 @@ impl<C: Config, Q: Query> Snapshot<C, Q> {
         }
 
         crate::verif_pause!("bp.before_done", Some(self.query_id()));
-        self.done_backward_projection(backward_projection_lock_guard).await;
+        self.done_backward_projection(
+            backward_projection_lock_guard,
+            caller_information.clone_active_computation_guard(),
+        )
+        .await;
     }
 }
